@@ -211,16 +211,19 @@ PROPS = {
                                  FootSet={"none", "table"}, SrcSet={"none", "para"}, PlaceSet=PL3, TitleSet={True}, SublineSet={True}, PbHdrSet=NP)),
                    dict(consts=C(NSet={0}, Heights={1}, NrowSet={3}, Strategies=S3, HdrSet={"none", "default"}, FootSet=FS3, SrcSet=FS3, PlaceSet=PL3,
                                  TitleSet={True}, SublineSet={True})),
+                   # every paper / orientation spelling on a table of several pages
+                   dict(consts=C(NSet={5}, Heights={1}, NrowSet={3}, Strategies={"plain", "subline"}, HdrSet={"default"},
+                                 PaperSet={"letter", "letterm", "landscape", "a4", "a4land", "a4landp", "custom"}, PgHFSet={0, 3})),
                    dict(consts=C(NSet={0, 1, 5, 8}, Heights={1}, NrowSet={3, 4, 6, 20}, Strategies=S3, HdrSet={"none", "default", "explicit", "explicit2"},
                                  FootSet=FS3, SrcSet=FS3, PlaceSet=PL3, TitleSet=NP, SublineSet=NP, PbHdrSet=NP, HdrWSet=NP, HdrTupleSet=NP,
-                                 PaperSet={"letter", "letterm", "landscape", "a4", "a4land", "custom"}, PgHFSet={0, 1, 2, 3}), simulate=1200)],
+                                 PaperSet={"letter", "letterm", "landscape", "a4", "a4land", "a4landp", "custom"}, PgHFSet={0, 1, 2, 3}), simulate=1200)],
             thorough=[dict(consts=C(NSet={1, 5}, Heights={1}, NrowSet={3, 4, 20}, Strategies=S3, HdrSet={"none", "default"}, FootSet=FS3, SrcSet=FS3,
                                     PlaceSet=PL3, TitleSet={True}, SublineSet={True}, PbHdrSet=NP)),
                       dict(consts=C(NSet={0}, Heights={1}, NrowSet={3}, Strategies=S3, HdrSet={"none", "default"}, FootSet=FS3, SrcSet=FS3, PlaceSet=PL3,
                                     TitleSet={True}, SublineSet={True})),
                       dict(consts=C(NSet={0, 1, 5, 12}, Heights={1, 2}, NrowSet={3, 4, 6, 20}, Strategies=ALL_STRAT,
                                     HdrSet={"none", "default", "explicit", "explicit2"}, FootSet=FS3, SrcSet=FS3, PlaceSet=PL3, TitleSet=NP,
-                                    SublineSet=NP, PbHdrSet=NP, PaperSet={"letter", "letterm", "landscape", "a4", "a4land", "custom"},
+                                    SublineSet=NP, PbHdrSet=NP, PaperSet={"letter", "letterm", "landscape", "a4", "a4land", "a4landp", "custom"},
                                     PgHFSet={0, 1, 2, 3}, HdrWSet=NP, HdrTupleSet=NP), simulate=12000)]),
         nontrivial=lambda c, pred: pred is not None and pred and pred[-1]["p"] >= 2,
     ),
